@@ -158,7 +158,12 @@ def apply_contract(I, contract, fn, args, kwargs, node):
             if "final" in [a.arg for a in clause_function(contract, cl).node.args.args]:
                 continue        # clause about the callee's internals: proved of the callee, not usable by callers
             v = eval_clause(I, contract, cl, env2)
-            ctx.assume(I.truth(v) if not isinstance(I.truth(v), bool) else I.truth(v))
+            tv = I.truth(v)
+            if tv is False:
+                # a callee postcondition that is false outright (not merely on this path) would end the path silently
+                raise ContractError("postcondition %s of %s is unsatisfiable for the havocked result at this call site "
+                                    "(does the contract declare result()?)" % (cl.name, contract.target))
+            ctx.assume(tv)
     finally:
         ctx.assuming -= 1
     ctx.assumed_contracts.add(contract.target)
